@@ -157,6 +157,12 @@ def answer (line : String) : String :=
     match parseBool lx, off.toNat?, bytes.toNat?, parseAll parseAns anss with
     | some lx, some off, some bytes, some anss => showRun (blockJob (scriptKern anss) lx off bytes)
     | _, _, _, _ => "bad-op"
+  -- one `copy_file_bytes(bytes)` call with both cursors at pos: `cfb <linux> <pos> <bytes> | answers…`
+  | "cfb" :: lx :: pos :: bytes :: "|" :: anss =>
+    match parseBool lx, pos.toNat?, bytes.toNat?, parseAll parseAns anss with
+    | some lx, some pos, some bytes, some anss =>
+      showRun (if lx then copyFileBytes (scriptKern anss) 0 pos bytes else copyFileBytesFallback (scriptKern anss) 0 pos bytes)
+    | _, _, _, _ => "bad-op"
   -- parfile's copy of one file: `filecopy <linux> <len> <bsize> <sparse> <segs|-> | answers…`
   | "filecopy" :: lx :: len :: bs :: sp :: segs :: "|" :: anss =>
     match parseBool lx, len.toNat?, bs.toNat?, parseBool sp, parseSegs segs, parseAll parseAns anss with
